@@ -15,6 +15,7 @@ results, so a later assignment never invalidates an earlier guard literal.
 """
 
 import ast
+import copy
 import itertools
 
 from . import sym
@@ -280,6 +281,12 @@ class Evaluator(object):
                 st.locals.pop(t.id, None)
 
     def st_Assign(self, s, st, frame):
+        if isinstance(s.value, ast.IfExp) and len(s.targets) == 1 and isinstance(s.targets[0], (ast.Attribute, ast.Subscript)):
+            # `obj.f = a if c else b` is the statement `if c: obj.f = a  else: obj.f = b` (same evaluation order)
+            tgt = s.targets[0]
+            a = ast.copy_location(ast.Assign(targets=[tgt], value=s.value.body), s)
+            b = ast.copy_location(ast.Assign(targets=[tgt], value=s.value.orelse), s)
+            return self.st_If(ast.copy_location(ast.If(test=s.value.test, body=[a], orelse=[b]), s), st, frame)
         v = self.ev(s.value, st, frame)
         for t in s.targets:
             self.assign(t, v, st, frame, s)
@@ -321,6 +328,11 @@ class Evaluator(object):
             idx = self.ev_index(t.slice, st, frame)
             self.emit(Event("store", base=base, index=idx, value=v), stmt, st, frame)
             st.sub[(canon(base), canon(idx))] = v
+            if isinstance(t.value, ast.Name) and base == ("dict",) and frame.loops and not getattr(frame.loops[-1], "is_while", False) and self.summary.events:
+                # d = {}; for ...: d[k] = v   is the dict comprehension {k: v for ...}: remembered, decided when the loop closes
+                loop = frame.loops[-1]
+                rel = [l for l in st.guard if l not in loop.guard0 or l in loop.filter]
+                loop.dict_stores.setdefault(t.value.id, []).append((idx, v, tuple(l for l in rel if not (isinstance(l[0], tuple) and l[0] and l[0][0] == "impl")), self.summary.events[-1]))
         elif isinstance(t, (ast.Tuple, ast.List)):
             n = len(t.elts)
             for i, el in enumerate(t.elts):
@@ -513,6 +525,15 @@ class Evaluator(object):
                     if sym.contains(k[0], lambda n: n == elem):
                         continue
                     st.heap[k] = ("loopval", lid, k[1], v)
+        for lname, sites in loop.dict_stores.items():
+            reads = [n_ for b_ in (body if body_expr is None else []) for n_ in ast.walk(b_) if isinstance(n_, ast.Name) and n_.id == lname and isinstance(n_.ctx, ast.Load)]
+            if len(sites) == 1 and len(reads) == 1 and st.locals.get(lname) == ("dict",) and sites[0][3].kind == "store":
+                key, val, rel, ev_ = sites[0]
+                st.locals[lname] = ("comp", "dict", ("tuple", key, val), it, tuple(rel))
+                if ev_ in self.summary.events:
+                    self.summary.events.remove(ev_)
+                for k_ in [k_ for k_ in st.sub if k_[0] == canon(("dict",))]:
+                    del st.sub[k_]
         for lname, sites in loop.appends.items():
             if len(sites) == 1 and st.locals.get(lname) == ("list",):
                 expr, rel = sites[0]
@@ -569,6 +590,10 @@ class Evaluator(object):
             self.assign(target, elem, st, frame, node)
 
     def st_While(self, s, st, frame):
+        # `while True: if C: break; BODY`  is  `while not C: BODY`
+        if (isinstance(s.test, ast.Constant) and s.test.value is True and not s.orelse and s.body and isinstance(s.body[0], ast.If) and not s.body[0].orelse
+                and len(s.body[0].body) == 1 and isinstance(s.body[0].body[0], ast.Break) and len(s.body) > 1):
+            s = ast.copy_location(ast.While(test=ast.copy_location(ast.UnaryOp(op=ast.Not(), operand=s.body[0].test), s.body[0]), body=s.body[1:], orelse=[]), s)
         lid = next(self._ids)
         names, fields = _assigned_in(s.body)
         pre = dict(st.locals)
@@ -1233,11 +1258,28 @@ class Evaluator(object):
         # drop from each later exit's condition what is already known that way
         conds = []
         known = list(st.guard)
+        base_raw = len(st.graw)
         for es, _ in exits[:-1]:
             tail = [l for l in es.guard[base:] if not (isinstance(l[0], tuple) and l[0] and l[0][0] == "impl")]
             ksat = sym.sat(known)
             simp = [l for l in tail if not sym.lit_holds(ksat, l[0], l[1])]
-            cond = _conj(simp)
+            # prefer the raw branch conditions (phi nodes inside them stay resolvable) when they account for the whole tail
+            raws = list(es.graw[base_raw:])
+            raw_lits = []
+            for c_, p_ in raws:
+                raw_lits.extend(literals(c_, p_))
+            if raws and set(raw_lits) == set(tail):
+                rsimp = []
+                for c_, p_ in raws:
+                    try:
+                        if all(sym.lit_holds(ksat, a_, q_) for a_, q_ in literals(c_, p_)):
+                            continue
+                    except Exception:
+                        pass
+                    rsimp.append((c_, p_))
+                cond = _conj(rsimp)
+            else:
+                cond = _conj(simp)
             conds.append(cond)
             known.extend(literals(cond, False))
         for (es, ev_), cond in reversed(list(zip(exits[:-1], conds))):
@@ -1274,6 +1316,20 @@ class Evaluator(object):
             rest = [[l for l in t if l not in common] for t in tails]
             if all(rest):
                 st.guard.append((("impl", canon(("or",) + tuple(_conj(r) for r in rest))), True))
+                # the same fact over the raw branch conditions, so that phi nodes inside them can be resolved later
+                raw_alts = []
+                for es, _ in exits:
+                    rs = list(es.graw[base_raw:])
+                    rl = []
+                    for c_, p_ in rs:
+                        rl.extend(literals(c_, p_))
+                    plain_tail = [l for l in es.guard[base:] if not (isinstance(l[0], tuple) and l[0] and l[0][0] == "impl")]
+                    if not rs or set(rl) != set(plain_tail):
+                        raw_alts = None
+                        break
+                    raw_alts.append(_conj(rs))
+                if raw_alts:
+                    st.graw.append((("or",) + tuple(raw_alts), True))
         if len(exits) == 1:
             st.graw = list(last_state.graw)
         ev.result = val
@@ -1422,6 +1478,7 @@ class Loop(object):
         self.is_while = False
         self.test = None
         self.appends = {}
+        self.dict_stores = {}
 
     def __repr__(self):
         return "<Loop %s>" % sym.fmt(self.iter)
@@ -1567,7 +1624,7 @@ def _component(v, i, n):
     if t in ("tuple", "list") and len(v) - 1 == n:
         return v[1 + i]
     if t == "ite":
-        return ("ite", v[1], _component(v[2], i, n), _component(v[3], i, n))
+        return _ite(v[1], _component(v[2], i, n), _component(v[3], i, n))
     return ("item", v, i)
 
 
@@ -1631,20 +1688,78 @@ def _flatten_targets(t):
 _backing_memo = {}
 
 
+class _Subst(ast.NodeTransformer):
+    def __init__(self, mapping):
+        self.mapping = mapping
+
+    def visit_Name(self, node):
+        if isinstance(node.ctx, ast.Load) and node.id in self.mapping:
+            return copy.deepcopy(self.mapping[node.id])
+        return node
+
+
+def _single_assignment_aliases(fnode):
+    """{local: expression} for locals bound exactly once by a plain `name = expr` (and never otherwise rebound)."""
+    counts, values = {}, {}
+    for n in ast.walk(fnode):
+        if isinstance(n, ast.Assign) and len(n.targets) == 1 and isinstance(n.targets[0], ast.Name):
+            counts[n.targets[0].id] = counts.get(n.targets[0].id, 0) + 1
+            values[n.targets[0].id] = n.value
+        elif isinstance(n, (ast.AugAssign, ast.AnnAssign)) and isinstance(n.target, ast.Name):
+            counts[n.target.id] = counts.get(n.target.id, 0) + 2
+        elif isinstance(n, (ast.For, ast.comprehension)):
+            for el in ast.walk(n.target):
+                if isinstance(el, ast.Name):
+                    counts[el.id] = counts.get(el.id, 0) + 2
+        elif isinstance(n, ast.Assign):
+            for t in n.targets:
+                for el in ast.walk(t):
+                    if isinstance(el, ast.Name) and isinstance(el.ctx, ast.Store):
+                        counts[el.id] = counts.get(el.id, 0) + 2
+    return dict((k, v) for k, v in values.items() if counts.get(k) == 1)
+
+
+def _resolved_returns(fi, depth=0):
+    """The return expressions of a function with single-assignment locals substituted and calls to simple
+    private helpers of the same object (`self._h(args)`: straight-line body ending in one return) expanded."""
+    aliases = _single_assignment_aliases(fi.node)
+    out = []
+    for r in [n for n in ast.walk(fi.node) if isinstance(n, ast.Return)]:
+        v = r.value
+        for _ in range(3):
+            if v is None:
+                break
+            v = _Subst(aliases).visit(copy.deepcopy(v))
+        prog = getattr(fi, "prog", None)
+        if (v is not None and depth < 2 and prog is not None and fi.cls and isinstance(v, ast.Call) and isinstance(v.func, ast.Attribute) and isinstance(v.func.value, ast.Name)
+                and v.func.value.id == (fi.params[0] if fi.params else "self") and not v.keywords):
+            callee = prog.resolve(fi.cls, v.func.attr)
+            if callee is not None and not callee.is_property and len(callee.params) - 1 == len(v.args):
+                body = [b for b in callee.node.body if not (isinstance(b, ast.Expr) and isinstance(b.value, ast.Constant))]
+                if body and isinstance(body[-1], ast.Return) and all(isinstance(b, ast.Assign) for b in body[:-1]):
+                    inner = _resolved_returns(callee, depth + 1)
+                    if len(inner) == 1 and inner[0] is not None:
+                        mapping = dict(zip(callee.params[1:], v.args))
+                        mapping[callee.params[0]] = ast.Name(id=fi.params[0] if fi.params else "self", ctx=ast.Load())
+                        v = _Subst(mapping).visit(copy.deepcopy(inner[0]))
+        out.append(v)
+    return out
+
+
 def property_backing(fi):
     """('field', F) if every return is `self.F`; ('series', S) if every return is `self.S.loc[: self.now]`;
-    ('abstract',) if it only raises; else ('complex',)."""
+    ('abstract',) if it only raises; else ('complex',).  Judged on the returns with local aliases and simple
+    private helpers expanded, so `return self._up_to_now(self._prices)` is still the windowed series."""
     hit = getattr(fi.node, "_btlint_backing", None)
     if hit is not None:
         return hit
-    rets = [n for n in ast.walk(fi.node) if isinstance(n, ast.Return)]
+    rets = _resolved_returns(fi)
     res = ("complex",)
     if not rets:
         res = ("abstract",)
     else:
         kinds = set()
-        for r in rets:
-            v = r.value
+        for v in rets:
             if isinstance(v, ast.Attribute) and isinstance(v.value, ast.Name) and v.value.id == "self":
                 kinds.add(("field", v.attr))
             elif (isinstance(v, ast.Subscript) and isinstance(v.value, ast.Attribute) and v.value.attr == "loc" and isinstance(v.value.value, ast.Attribute)
